@@ -160,6 +160,9 @@ type Description struct {
 	Level        string // exploration | fault_enumeration
 	Exhaustive   bool
 	ZeroProbesOK []string
+	// MustHit: probes / fault kinds that must fire at least once per batch; a batch in which one of
+	// them stays at zero explored nothing of that kind and is an infrastructure failure (exit 2).
+	MustHit []string
 }
 
 var registry = map[string]Prop{}
